@@ -140,7 +140,7 @@ def classify(case, obs, model, verdict, corr, detail=None):
     bad = [i for i, (o, op) in enumerate(zip(obs, d["ops"])) if o == ["not-a-histogram"]]
     if bad and all(d["ops"][i][0] == "mul" and d["ops"][i][3] == "rev" and d["ops"][i][2].startswith("np.") for i in bad):
         # every other step must agree with the faithful model
-        if corr: return "F20b"
+        pass      # F20b (numpy_scalar * h returned a bare ndarray) was repaired in /repo: a return of it is a violation again
     return None
 
 def shrink(case):
